@@ -124,7 +124,7 @@ func c06Dests() []c06Dest {
 	return d
 }
 
-var c06Positions = []string{"top", "read", "field", "ptrfield", "elem", "mapval", "ptr", "ptrptr", "viaref", "manyreader", "longlist"}
+var c06Positions = []string{"top", "read", "field", "ptrfield", "elem", "mapval", "ptr", "ptrptr", "viaref", "manyreader", "longlist", "thenref"}
 
 // position longlist: this many copies in one list - more than the decoder pre-allocates (4096) and not a
 // power-of-two multiple of it, so the slice grows in steps and has to end at exactly this length
@@ -144,6 +144,25 @@ func c06Referable(body string) bool {
 	return body[0] == 's' && body != "s0\"\""
 }
 
+// c06Slots: how many places in the reference table a form takes: 1 for a single string, binary, date, time or
+// guid token, 0 for a scalar, -1 for anything else (containers, objects, forms with references: not used at
+// the position thenref)
+func c06Slots(body string) int {
+	if body == "" || strings.Contains(body, "%R") {
+		return -1
+	}
+	switch body[0] {
+	case 's', 'b', 'D', 'T', 'g':
+		if strings.ContainsAny(body[1:], "{") && body[0] != 'g' {
+			return -1
+		}
+		return 1
+	case 'a', 'm', 'c', 'o', 'r':
+		return -1
+	}
+	return 0
+}
+
 // c06Render places the form's bytes at a position; refBase is the number of referable items the
 // wrapper contributes before the form, so that relative references stay correct
 func c06Render(body string, pos string) []byte {
@@ -159,6 +178,14 @@ func c06Render(body string, pos string) []byte {
 	case "viaref":
 		// the map is item 0, the form item 1
 		pre, post, base = "m2{ua", "ubr1;}", 1
+	case "thenref":
+		// the form in a field, then a string, then a reference to that string: whatever the destination makes of
+		// the form, it takes the place in the reference table its token has (the map is item 0)
+		k := 1
+		if c06Slots(body) == 1 {
+			k = 2
+		}
+		return []byte(fmt.Sprintf("m3{uf%sugs2\"xy\"uhr%d;}", body, k))
 	case "manyreader":
 		return []byte(fmt.Sprintf("a%d{%s}", c06Many, strings.Repeat(body, c06Many)))
 	case "longlist":
@@ -271,6 +298,11 @@ func c06One(t *tr.Writer, form c06Form, dest c06Dest, pos string) {
 			return
 		}
 		target = reflect.SliceOf(dest.T)
+	case "thenref":
+		if c06Slots(form.Body) < 0 {
+			return
+		}
+		target = reflect.StructOf([]reflect.StructField{{Name: "F", Type: dest.T}, {Name: "G", Type: reflect.TypeOf("")}, {Name: "H", Type: reflect.TypeOf("")}})
 	case "viaref":
 		if !c06Referable(form.Body) {
 			return
@@ -316,11 +348,17 @@ func c06One(t *tr.Writer, form c06Form, dest c06Dest, pos string) {
 		}
 	}()
 	canaryOK := c.Field(0).Uint() == 0xDEADBEEFCAFEF00D && c.Field(2).Uint() == 0x0123456789ABCDEF
+	thenrefFault := ""
 	// dig the destination value out of its position
 	if pos != "read" {
 		got = c.Field(1)
 		switch pos {
 		case "field":
+			got = got.Field(0)
+		case "thenref":
+			if errs == "none" && panicked == "none" && got.Field(2).String() != "xy" {
+				thenrefFault = fmt.Sprintf("the reference after the form resolved to %q instead of \"xy\"", got.Field(2).String())
+			}
 			got = got.Field(0)
 		case "viaref":
 			got = got.Field(1)
@@ -373,6 +411,9 @@ func c06One(t *tr.Writer, form c06Form, dest c06Dest, pos string) {
 	out, fault := fmtx.Graph{Nodes: []fmtx.AV{}, Root: fmtx.AV{"k": "absent"}}, "none"
 	if got.IsValid() && panicked == "none" {
 		out, fault = safeAbs(got)
+	}
+	if fault == "none" && thenrefFault != "" {
+		fault = thenrefFault
 	}
 	t.Emit(tr.Rec{"ev": "pos", "pos": pos, "err": errs, "panic": panicked, "out": out, "fault": fault, "canary": canaryOK})
 }
